@@ -70,7 +70,15 @@ Lits == <<
   L("float32", "1e-3", "", "float", 32, FALSE, <<>>, <<Q(1, 1000, 0)>>),
   L("float32[2]", "[0.1,2.5]", "", "float", 32, FALSE, <<2>>, <<Q(1, 10, 0), Q(5, 2, 0)>>),
   \* inside a block everything is text, also a line that starts with a hash sign
-  L("str", "\"\"\"\nfirst line\n# not a comment\nlast line\n\"\"\"", "", "str", 0, FALSE, <<>>, <<S("first line\n# not a comment\nlast line")>>)
+  L("str", "\"\"\"\nfirst line\n# not a comment\nlast line\n\"\"\"", "", "str", 0, FALSE, <<>>, <<S("first line\n# not a comment\nlast line")>>),
+  \* arrays with exactly one element are still arrays
+  L("int[:]", "[7]", "", "int", 32, FALSE, <<1>>, <<Q(7, 1, 0)>>),
+  L("int[1,1]", "[[3]]", "", "int", 32, FALSE, <<1, 1>>, <<Q(3, 1, 0)>>),
+  L("float[1]", "[2.5]", "m", "float", 64, FALSE, <<1>>, <<Q(5, 2, 0)>>),
+  L("str[1]", "[\"solo\"]", "", "str", 0, FALSE, <<1>>, <<S("solo")>>),
+  \* a backslash in a string is a backslash (no escape sequences are documented)
+  L("str", "\"C:\\temp\\new_run\"", "", "str", 0, FALSE, <<>>, <<S("C:\\temp\\new_run")>>),
+  L("str", "'a\\nb'", "", "str", 0, FALSE, <<>>, <<S("a\\nb")>>)
 >>
 
 \* a table literal: header declarations and rows; it denotes one array node per column below the table's name
@@ -87,6 +95,10 @@ Tables == <<
   \* text cells that look like numbers or keywords stay text, character by character
   Tab(<<Col("w", "str", "", "str", 0, <<S("1.10"), S("true"), S("1e3")>>),
         Col("k", "int", "", "int", 32, <<Q(1,1,0), Q(2,1,0), Q(3,1,0)>>)>>,
-      <<"1.10 1", "true 2", "1e3 3">>)
+      <<"1.10 1", "true 2", "1e3 3">>),
+  \* a table with a single row gives arrays of one element
+  Tab(<<Col("k", "int", "", "int", 32, <<Q(5,1,0)>>),
+        Col("w", "str", "", "str", 0, <<S("x")>>)>>,
+      <<"5 x">>)
 >>
 =============================================================================
